@@ -76,6 +76,7 @@ int main(int argc, char** argv) {
       int k; ss >> k; const std::string& op = ops[k]; nsteps++;
       if (op.rfind("US", 0) == 0) { sv = std::atoi(op.c_str() + 2); auto cs = scoords(sv); I->update_gaussian_basis_coords(sys.ns, cs.data()); }
       else if (op.rfind("UE", 0) == 0) { ev = std::atoi(op.c_str() + 2); auto ce = ecoords(ev); I->update_ecp_basis_coords(sys.ne, ce.data()); }
+      else if (op == "IN") I->init(2);       // init() again on the same integrator: engine rebuilt, atom ids re-derived from the current coordinates
       else if (op == "CI") I->compute_integrals();
       else if (op == "CF") I->compute_first_derivs();
       else if (op == "CS") I->compute_second_derivs();
